@@ -417,6 +417,7 @@ type ggState struct {
 	// known-finding hits per fault family of this case (see ggKnownCap)
 	knownByFam map[string]int
 	curFam     string
+	lenientRef bool // see pointReplay in runGGUF
 }
 
 // While the tree has open known findings almost every oversized length kills the decode
@@ -792,7 +793,7 @@ func (st *ggState) handle(run *ggRun, v *verifsim.Violation, k int) bool {
 		return false
 	}
 	run.res.Info["viol:"+v.Signature]++
-	if st.known[v.Signature] {
+	if st.known[v.Signature] || (st.lenientRef && k == 0) {
 		run.res.Info["known_hits"]++
 		st.knownByFam[st.curFam]++
 		if st.knownFirst == nil {
@@ -833,11 +834,26 @@ func runGGUF(t *testing.T, tape *verifsim.Tape, prop, tier string, keepLog bool)
 		maxPoints = 1 << 20
 	}
 	var st *ggState
+	// Replay of "reference + point k" (confirmation, minimisation, --replay): a violation of
+	// the reference decode must not hide the point, whatever the known-findings list says
+	// today; it is remembered and reported only if the point itself is clean.
+	pointReplay := false
+	if tape.Replaying() {
+		if rest := tape.Rest(); len(rest) > 0 && rest[0]%(1<<30) > 0 {
+			pointReplay = true
+		}
+	}
+	// Replays never consult the known-findings list (a replay file must mean the same thing
+	// whatever that list contains): the first violation met is the result.
+	known := ggKnown
+	if tape.Replaying() {
+		known = nil
+	}
 	ref := func(tp *verifsim.Tape) (verifsim.Result, int) {
 		d := ggDraw(tp.Draw)
 		run := &ggRun{res: verifsim.Result{Info: map[string]int{}, Faults: map[string]int{}, Probes: map[string]int{}}}
 		c := ggGenerate(d, tier)
-		st = &ggState{c: c, keepLog: keepLog, known: ggKnown, knownByFam: map[string]int{}, curFam: "reference"}
+		st = &ggState{c: c, keepLog: keepLog, known: known, knownByFam: map[string]int{}, curFam: "reference", lenientRef: pointReplay}
 		st.mode = ggModes[d(len(ggModes))]
 		nsched := 1 + d(2)
 		for i := 0; i < nsched; i++ {
